@@ -114,6 +114,10 @@ def check_config(ctx, cfg):
     csrtarget.range_covers_width(ctx, regs, cfg["dw"], cfg)
     by_name = {R["name"]: R for R in regs}
     en, pe = by_name["enable"], by_name["pending"]
+    # the monitor is the one that was CONFIGURED: one mask bit per event in both registers, enable before pending, a bus of the data width
+    native(ctx, "accepts_valid_parameters", en["width"] == cfg["n"] and pe["width"] == cfg["n"] and en["start"] < pe["start"]
+           and mon.bus.data_width == cfg["dw"] and mon.bus.memory_map.data_width == cfg["dw"] and len(regs) == 2,
+           f"EventMonitor for {cfg['n']} events on a {cfg['dw']}-bit bus has registers {[(R['name'], R['width'], R['start'], R['stop']) for R in regs]}", cfg)
     probes = csrtarget.elem_signals(regs)
     for s in srcs:
         probes += [s.i, s.trg]
